@@ -127,7 +127,9 @@ Notation el := (exprLoop conv).
 Definition tkok (tk : ptok) : Prop :=
   table_get postfix_fns (pty tk) = None /\ pty tk <> token_LAMBDA.
 (* the expression loop at level q stops in front of tk *)
-Definition stops (q : Z) (tk : ptok) : Prop := pty tk = token_SEMICOLON \/ precedence_of (pty tk) <= q.
+Definition stops (q : Z) (tk : ptok) : Prop :=
+  pty tk = token_SEMICOLON \/ precedence_of (pty tk) <= q
+  \/ ((pty tk = token_LPAREN \/ pty tk = token_LBRACKET) /\ pk_ws tk = true).
 Definition follow (e : ex) (tk : ptok) : Prop :=
   match e with EAtom _ _ => True | _ => stops (lvl e) tk end.
 
@@ -158,10 +160,13 @@ Proof. reflexivity. Qed.
 Lemma el_stop q tk left s : stops q tk -> ps_peek s = tk -> el 1 q left s = ROk left s.
 Proof.
   intros H Hp. rewrite exprLoop_S. unfold peekIs, peekPrecedence. rewrite Hp.
-  destruct H as [H|H].
+  destruct H as [H|[H|[H Hw]]].
   - rewrite H, Z.eqb_refl. reflexivity.
   - replace (q <? precedence_of (pty tk)) with false by (symmetry; apply Z.ltb_ge; exact H).
     now rewrite andb_false_r.
+  - destruct (negb _ && _); [|reflexivity]. cbv zeta. rewrite Hw.
+    destruct (table_get infix_fns (pty tk)); [|reflexivity].
+    destruct H as [-> | ->]; rewrite Z.eqb_refl; rewrite ?orb_true_r; reflexivity.
 Qed.
 
 (* the prefix-expression head of parseExpression, once the prefix function has answered *)
@@ -414,7 +419,8 @@ Qed.
 
 Lemma follow_of_stops e q tk : stops q tk -> q <= lvl e -> follow e tk.
 Proof.
-  intros [H|H] Hq; destruct e; cbn [follow]; try exact I; unfold stops; try (now left); right; lia.
+  intros [H|[H|H]] Hq; destruct e; cbn [follow]; try exact I; unfold stops; try (now left);
+    try (right; right; exact H); right; left; lia.
 Qed.
 
 Lemma right_lvl op l r : wf_ex conv (EBin op l r) = true ->
@@ -673,4 +679,117 @@ Proof.
   intros Hwf Hm. destruct (fragment_program_roundtrip conv e pts Hwf Hm) as [f0 H].
   exists f0. intros fuel Hle. rewrite (H fuel Hle). cbn [pr_tree frag_tokens].
   now rewrite of_to_node, Hwf.
+Qed.
+
+(* ---------- a program that is a sequence of fragment expression statements ---------- *)
+Lemma fact_semicolon_noprefix : table_get prefix_fns token_SEMICOLON = None. Proof. reflexivity. Qed.
+
+Lemma programLoop_mono_le conv f f' acc s l s' : (f <= f')%nat ->
+  programLoop conv f acc s = ROk l s' -> programLoop conv f' acc s = ROk l s'.
+Proof. intros Hle. induction Hle as [|f' Hle IH]; [auto|]. intros H. apply programLoop_mono. auto. Qed.
+
+(* the first token of a statement that follows another one must not continue it: not a postfix operator or
+   `=>`, and either without infix precedence or an opening parenthesis / bracket preceded by white space *)
+Definition starts_fresh (tk : ptok) : Prop := tkok tk /\ stops ast_LOWEST tk.
+
+Definition stmt_ok (conv : numconv) (e : ex) (pts : list ptok) : Prop := wf_ex conv e = true /\ map pk pts = body e.
+
+Lemma frag_prog_loop conv : forall es ptss, Forall2 (stmt_ok conv) es ptss ->
+  (forall pts, In pts (tl ptss) -> match pts with t :: _ => starts_fresh t | [] => True end) ->
+  forall acc s, view s (List.concat ptss ++ [eof_ptok]) ->
+  exists f, programLoop conv f acc s
+            = ROk (acc ++ map (fun e => Some (to_node e)) es) (skip (List.length (List.concat ptss)) s).
+Proof.
+  intros es ptss HF. induction HF as [|e pts es ptss [Hwf Hm] HF IH]; intros Hfresh acc s Hv.
+  - exists 1%nat. cbn [List.concat app] in Hv. pose proof (view_cur _ _ _ Hv) as Hc.
+    cbn [programLoop]. unfold curIs. rewrite Hc. cbn. now rewrite app_nil_r.
+  - cbn [List.concat] in Hv |- *.
+    destruct fact_prefix_val as (E11 & E1 & _).
+    assert (Hpn : pts <> []) by (apply (map_nonempty pk); rewrite Hm; apply body_nonempty).
+    assert (Hlen : List.length pts = List.length (body e)) by (rewrite <- Hm; now rewrite map_length).
+    (* the token that follows this statement *)
+    set (follow_l := List.concat ptss ++ [eof_ptok]) in *.
+    assert (Htk : exists tk more, follow_l = tk :: more /\ tkok tk /\ stops ast_LOWEST tk
+                                  /\ pty tk <> token_SEMICOLON).
+    { unfold follow_l. destruct ptss as [|pts2 ptss'].
+      - exists eof_ptok, []. split; [reflexivity|]. repeat split; try discriminate; try exact fact_eof_nopostfix.
+        right. left. change (pty eof_ptok) with token_EOF. rewrite fact_eof_prec. lia.
+      - inversion HF as [|e2 ? es' ? [Hwf2 Hm2] HF']; subst.
+        pose proof (body_hd_prefix conv e2 Hwf2) as Hhd.
+        destruct pts2 as [|t2 pts2']; [rewrite <- Hm2 in Hhd; contradiction|].
+        exists t2, (pts2' ++ List.concat ptss' ++ [eof_ptok]). split; [cbn [List.concat app]; now rewrite <- app_assoc|].
+        specialize (Hfresh (t2 :: pts2') (or_introl eq_refl)). destruct Hfresh as [H1 H2].
+        repeat split; try apply H1; try exact H2.
+        rewrite <- Hm2 in Hhd. cbn [map] in Hhd. unfold pty. intros X. rewrite X, fact_semicolon_noprefix in Hhd.
+        now apply Hhd. }
+    destruct Htk as (tk & more & Efl & Hk & Hst & Hns). rewrite <- app_assoc in Hv. fold follow_l in Hv. rewrite Efl in Hv.
+    assert (Hv1 : view s (pts ++ [tk])).
+    { apply view_prefix with (l2 := more). now rewrite <- app_assoc. }
+    destruct (view_at_last _ _ _ Hv1 Hpn) as [lastp Hse]. rewrite Hlen in Hse.
+    set (se := skip (List.length (body e) - 1) s) in *.
+    pose proof (view_peek _ _ _ _ Hse) as Hpk.
+    assert (Hexpr : exists f, parseExpression conv f ast_LOWEST s = ROk (Some (to_node e)) se).
+    { pose proof (toks_ok conv e Hwf 0 ast_LOWEST) as HT.
+      assert (Hpar : paren 0 e = false).
+      { destruct e as [t a|op r|op l r]; cbn [paren]; try reflexivity.
+        cbn [wf_ex] in Hwf. repeat (apply andb_true_iff in Hwf as [Hwf ?]). pose proof (bin_q _ Hwf). lia. }
+      unfold toks in HT. rewrite Hpar in HT.
+      eapply (HT ltac:(intros _; rewrite E1; now apply (lvl_low conv)) pts tk); [exact Hm| |exact Hv1|].
+      - split; [exact Hk|]. intros _. apply follow_of_stops with (q := ast_LOWEST); [exact Hst|].
+        pose proof (lvl_low conv e Hwf). rewrite E1. lia.
+      - exists 1%nat. now apply el_stop with (tk := tk). }
+    destruct Hexpr as [f1 Hpe].
+    (* the rest of the program starts right after this statement *)
+    assert (Hvnext : view (nextToken se) follow_l).
+    { rewrite Efl. replace (nextToken se) with (skip (List.length pts) s).
+      - apply view_skip with (l1 := pts). exact Hv.
+      - unfold se. change (nextToken (skip (List.length (body e) - 1) s)) with (skip 1 (skip (List.length (body e) - 1) s)).
+        rewrite <- skip_add. f_equal. rewrite Hlen. destruct (body e) eqn:Eb0; [exfalso; exact (body_nonempty e Eb0)|cbn; lia]. }
+    destruct (IH ltac:(intros p Hp; apply Hfresh; cbn [tl]; destruct ptss; [contradiction|right; exact Hp]) (acc ++ [Some (to_node e)]) (nextToken se) Hvnext)
+      as [f2 Hrest].
+    (* this statement *)
+    pose proof (body_hd_prefix conv e Hwf) as Hpre.
+    destruct pts as [|p1 pts']; [congruence|].
+    assert (Hc : ps_cur s = p1) by (apply view_cur with (l := pts' ++ tk :: more); exact Hv).
+    destruct (body e) as [|t1 bt] eqn:Eb; [contradiction|]. cbn [map] in Hm. injection Hm as Hp1 Hm'.
+    assert (Hret : ttype t1 <> token_RETURN) by (intros X; rewrite X, fact_return_noprefix in Hpre; now apply Hpre).
+    assert (Hcur_eof : curIs s token_EOF = false).
+    { unfold curIs, pty. rewrite Hc, Hp1. apply Z.eqb_neq. intros X. rewrite X in Hpre. now apply Hpre. }
+    assert (Hcur_eol : curIs s token_EOL = false).
+    { unfold curIs, pty. rewrite Hc, Hp1. apply Z.eqb_neq. intros X. rewrite X in Hpre. now apply Hpre. }
+    assert (Hcur_ret : curIs s token_RETURN = false).
+    { unfold curIs, pty. rewrite Hc, Hp1. now apply Z.eqb_neq. }
+    set (F := Nat.max f1 f2). set (F' := S F).
+    exists (S F'). cbn [programLoop]. rewrite Hcur_eof, Hcur_eol. cbn [orb].
+    unfold F' at 1. rewrite parseStatement_S, Hcur_ret.
+    rewrite (parseExpression_mono conv f1 F ast_LOWEST s _ _ (Nat.le_max_l f1 f2) Hpe).
+    assert (Hsemi : peekIs se token_SEMICOLON = false) by (unfold peekIs; rewrite Hpk; now apply Z.eqb_neq).
+    rewrite Hsemi.
+    rewrite (programLoop_mono_le conv f2 F' _ _ _ _ ltac:(unfold F', F; lia) Hrest).
+    f_equal.
+    + rewrite <- app_assoc. reflexivity.
+    + unfold se. change (nextToken (skip (List.length (t1 :: bt) - 1) s)) with (skip 1 (skip (List.length (t1 :: bt) - 1) s)).
+      rewrite <- !skip_add. f_equal. rewrite app_length. cbn [List.length] in Hlen |- *. lia.
+Qed.
+
+Theorem fragment_statements_roundtrip conv es ptss :
+  Forall2 (stmt_ok conv) es ptss ->
+  (forall pts, In pts (tl ptss) -> match pts with t :: _ => starts_fresh t | [] => True end) ->
+  exists f0, forall fuel, (f0 <= fuel)%nat ->
+    parse_program conv fuel token_EOF (List.concat ptss)
+    = POk (mkPres (map (fun e => Some (to_node e)) es) [] false true).
+Proof.
+  intros HF Hfresh.
+  assert (Hone : exists f, parse_program conv f token_EOF (List.concat ptss)
+                           = POk (mkPres (map (fun e => Some (to_node e)) es) [] false true)).
+  2:{ destruct Hone as [f Hf]. exists f. intros fuel Hle. eapply parse_program_fuel_monotone; eassumption. }
+  unfold parse_program. fold eof_ptok.
+  pose proof (view_init eof_ptok (List.concat ptss)) as Hv.
+  destruct (frag_prog_loop conv es ptss HF Hfresh [] _ Hv) as [f Hf].
+  exists f. rewrite Hf. cbn [app]. f_equal.
+  unfold init_state.
+  match goal with |- context [nextToken (nextToken ?s0)] => change (nextToken (nextToken s0)) with (skip 2 s0); set (z := s0) end.
+  rewrite <- skip_add.
+  destruct (skip_fields (2 + List.length (List.concat ptss)) z) as (-> & -> & ->).
+  cbn [ps_errs ps_cont ps_rest z rev]. rewrite skipn_all2; [reflexivity|lia].
 Qed.
